@@ -106,6 +106,15 @@ class SigKwOnlySlots:
         self.host, self.port, self.timeout = host, port, timeout
 
 
+class SigVarArgs:
+    """no annotations: the members are the named parameters of the constructor - those behind *args (keyword-only) too;
+    the variadic ones themselves are no members"""
+
+    def __init__(self, host=1, *rest, port=2, timeout=30, **extra):
+        self.host, self.port, self.timeout = host, port, timeout
+        self.rest, self.extra = rest, extra
+
+
 class LayeredDict(dict):
     """a dict subclass whose view of its pairs is its own (a scope with a parent): items() is the interface"""
 
@@ -354,8 +363,8 @@ def case(draw):
         return {"cat": cat, "kind": kind, "content": list(d.items())}
     if cat == "structured":
         kind = draw(st.sampled_from(["DC", "DCFrozen", "DCSlots", "Plain", "SlotsOnly", "VarsOnly", "SlotsAnn", "SlotsAnnSub", "SlotsReordered", "DCSub", "DCMapNames", "SlotsMapNames",
-                                     "PlainBadHint", "SlotsBadHint", "PlainBadHintSub", "SigKwOnly", "SigKwOnlySlots", "SlotsOnlySub", "DCCallable", "PlainCallable", "DCPrivRun", "PlainPrivRun", "SlotsPrivRun"]))
-        n = {"DCPrivRun": 2, "PlainPrivRun": 2, "SlotsPrivRun": 2, "DCCallable": 2, "PlainCallable": 2, "SlotsOnlySub": 3, "PlainBadHint": 3, "SlotsBadHint": 3, "PlainBadHintSub": 3, "SigKwOnly": 3, "SigKwOnlySlots": 3, "DC": 3, "DCFrozen": 2, "DCSlots": 2, "Plain": 3, "SlotsOnly": 3, "VarsOnly": draw(st.integers(0, 3)),
+                                     "PlainBadHint", "SlotsBadHint", "PlainBadHintSub", "SigKwOnly", "SigKwOnlySlots", "SlotsOnlySub", "DCCallable", "PlainCallable", "DCPrivRun", "PlainPrivRun", "SlotsPrivRun", "SigVarArgs"]))
+        n = {"SigVarArgs": 3, "DCPrivRun": 2, "PlainPrivRun": 2, "SlotsPrivRun": 2, "DCCallable": 2, "PlainCallable": 2, "SlotsOnlySub": 3, "PlainBadHint": 3, "SlotsBadHint": 3, "PlainBadHintSub": 3, "SigKwOnly": 3, "SigKwOnlySlots": 3, "DC": 3, "DCFrozen": 2, "DCSlots": 2, "Plain": 3, "SlotsOnly": 3, "VarsOnly": draw(st.integers(0, 3)),
              "SlotsAnn": 2, "SlotsAnnSub": 3, "SlotsReordered": 2, "DCSub": 3, "DCMapNames": 3, "SlotsMapNames": 2}[kind]
         vals = [draw(st.one_of(two_elem, anyval)) for _ in range(n)]
         return {"cat": cat, "kind": kind, "content": vals}
@@ -458,6 +467,9 @@ def build(c):
             x = {"PlainBadHint": PlainBadHint, "SlotsBadHint": SlotsBadHint}[kind]()
             x.a, x.b, x.c = v
             pairs = [("a", v[0]), ("b", v[1]), ("c", v[2])]
+        elif kind == "SigVarArgs":
+            x = SigVarArgs(v[0], port=v[1], timeout=v[2])
+            pairs = [("host", v[0]), ("port", v[1]), ("timeout", v[2])]
         elif kind in ("SigKwOnly", "SigKwOnlySlots"):
             x = {"SigKwOnly": SigKwOnly, "SigKwOnlySlots": SigKwOnlySlots}[kind](v[0], v[1], timeout=v[2])
             pairs = [("host", v[0]), ("port", v[1]), ("timeout", v[2])]
@@ -518,7 +530,7 @@ def build(c):
 def nontrivial(c, x):
     if c["cat"] == "empty" or c["kind"] in ("generator", "iter", "map", "sizediter", "sizedcollectioniter"):
         return True
-    if c["cat"] == "namedtuple" or c["kind"] in ("DC", "Plain", "SlotsOnly", "VarsOnly", "SlotsAnn", "SlotsAnnSub", "SlotsReordered", "DCSub", "DCMapNames", "SlotsMapNames", "PlainBadHint", "SlotsBadHint", "PlainBadHintSub", "SigKwOnly", "SigKwOnlySlots", "SlotsOnlySub", "DCCallable", "PlainCallable", "DCPrivRun", "PlainPrivRun", "SlotsPrivRun"):
+    if c["cat"] == "namedtuple" or c["kind"] in ("DC", "Plain", "SlotsOnly", "VarsOnly", "SlotsAnn", "SlotsAnnSub", "SlotsReordered", "DCSub", "DCMapNames", "SlotsMapNames", "PlainBadHint", "SlotsBadHint", "PlainBadHintSub", "SigKwOnly", "SigKwOnlySlots", "SlotsOnlySub", "DCCallable", "PlainCallable", "DCPrivRun", "PlainPrivRun", "SlotsPrivRun", "SigVarArgs"):
         return True
     content = c["content"]
     if c["cat"] in ("pairs", "mixed") and content:
